@@ -620,7 +620,7 @@ func permutations(n int) [][]int {
 }
 
 func c05Child(r *ev.Run, batch int) {
-	hist := r.N(14, 400)
+	hist := r.N(14, 140)
 	steps := r.N(30, 60)
 	for hi := 0; hi < hist; hi++ {
 		p := prng.Derive(r.Seed, "C05", batch, hi)
